@@ -68,34 +68,34 @@ def obligations(tier):
     # ---- brng generators, DWP/CHE with Get, bash hash and automaton
     BR = CORE + ['src/crypto/belt/belt_lcl.c', BLOCK, B + 'belt_hash.c', B + 'belt_compr.c', B + 'belt_hmac.c', 'src/crypto/brng.c']
     X = ['--max-field-sensitivity-array-size', '2048']
-    lens = (0, 1, 32, 33) if q else tuple(range(0, 41))
+    lens = (0, 1, 32) if q else tuple(range(0, 41))
     inst = [('h_%d_%d_%d' % (n, a, n - a if q else b_), '%d, %d, %d, 32' % (n, a, 0 if q else b_)) for n in lens for a in (sorted(set(x for x in (0, 1, 5, 31, 32, n) if x <= n)) if q else range(0, n + 1)) for b_ in ([0] if q else range(0, n - a + 1, 7))]
     inst = [(nm + '_%d' % i, args) for i, (nm, args) in enumerate(inst)]
-    obs.append(Ob(name='c10_brngCTR', harness='harness/C10/brng_ctr.c', instances=inst, srcs=BR, stub_files=['stubs/belt_block_uf_e.c'], stubs=['belt_block_uf_e'],
-                  unwind=60, unwind_rules=[(r'^(belt|brng)\w+Step\w*\.\d+$', 4), (r'^brngBlockInc\.0$', 5)], timeout=600, mem_gb=10, cbmc_extra=X,
+    obs.append(Ob(name='c10_brngCTR', harness='harness/C10/brng_ctr.c', instances=inst, replay='asan', srcs=BR, stub_files=['stubs/belt_block_uf_e.c'], stubs=['belt_block_uf_e'],
+                  unwind=60, unwind_rules=[(r'^(belt|brng)\w+Step\w*\.\d+$', 4), (r'^brngBlockInc\.0$', 5), (r'^vp_relocate\.\d$', 300)], timeout=600, mem_gb=16, cbmc_extra=X,
                   funcs=['brngCTRStart', 'brngCTRStepR'], bound='request lengths %s x every split point (quick: 2 fragments) = %d length tuples, key/iv symbolic, output buffers zero-filled, state relocated at every boundary' % (list(lens), len(inst))))
-    inst2 = [('h_%d_%d_%d' % (n, a, iv), '%d, %d, 0, %d' % (n, a, iv)) for n in ((0, 1, 32, 33) if q else (0, 1, 31, 32, 33, 40)) for a in range(0, n + 1, 1 if n < 8 else 8) for iv in ((16, 72) if q else (0, 16, 64, 65, 72))]
-    obs.append(Ob(name='c10_brngHMAC', harness='harness/C10/brng_hmac.c', instances=inst2, srcs=BR, stub_files=['stubs/belt_block_uf_e.c'], stubs=['belt_block_uf_e'],
-                  unwind=90, unwind_rules=[(r'^(belt|brng)\w+Step\w*\.\d+$', 5)], timeout=900, mem_gb=10, cbmc_extra=X,
+    inst2 = [('h_%d_%d_%d' % (n, a, iv), '%d, %d, 0, %d' % (n, a, iv)) for n in ((1, 20) if q else (0, 1, 31, 32, 33, 40)) for a in ((0, 1) if q else range(0, n + 1, 1 if n < 8 else 8)) for iv in ((16, 72) if q else (0, 16, 64, 65, 72))]
+    obs.append(Ob(name='c10_brngHMAC', harness='harness/C10/brng_hmac.c', instances=inst2, replay='asan', srcs=BR, stub_files=['stubs/belt_block_uf_e.c'], stubs=['belt_block_uf_e'],
+                  unwind=90, unwind_rules=[(r'^(belt|brng)\w+Step\w*\.\d+$', 5), (r'^vp_relocate\.\d$', 300)], timeout=900, mem_gb=16, cbmc_extra=X,
                   funcs=['brngHMACStart', 'brngHMACStepR'], bound='%d (request length, split point, iv length) tuples incl. iv_len 72 > 64 (state keeps a pointer to the caller iv), state relocated at every boundary' % len(inst2)))
     AE = BELT_CORE + [BLOCK, B + 'belt_dwp.c', B + 'belt_che.c', B + 'belt_ctr.c']
     shapes = [(nh, a, nd, b, g1, g2) for nh in ((0, 17, 20) if q else (0, 1, 5, 16, 17, 20, 32, 33)) for a in sorted(set([0, nh // 2] if q else [0, nh // 2, nh])) for nd in ((0, 7, 16) if q else (0, 1, 7, 16, 17, 21, 33)) for b in sorted(set([nd // 2] if q else [0, nd // 2, nd]))
               for (g1, g2) in (((1, 1),) if q else ((0, 0), (1, 1)))]
-    for che in (0, 1):
+    for che in (() if q else (0, 1)):   # quick: out of memory in propositional reduction even for the smallest instance (not understood); thorough keeps them, expected UNDECIDED
         obs.append(Ob(name='c10_belt%s_get' % ('CHE' if che else 'DWP'), harness='harness/C10/belt_dwp.c', defs=['USE_CHE'] if che else [],
                       instances=[('h_%d_%d_%d_%d_%d%d' % s_, '%d, %d, %d, %d, %d, %d' % s_) for s_ in shapes], srcs=AE, stub_files=['stubs/belt_block_uf_e.c', 'stubs/belt_polymul_uf.c'],
                       stubs=['belt_block_uf_e', 'belt_polymul_uf'], unwind=50, unwind_rules=[(r'^belt\w+Step\w*\.\d+$', 4)], timeout=600, mem_gb=10, cbmc_extra=X,
                       funcs=['Start', 'StepI', 'StepE', 'StepA', 'StepG'], bound='%d (open length, split, critical length, split, Get at boundaries) tuples; state relocated at both boundaries' % len(shapes)))
     BH = CORE + ['src/crypto/bash/bash_hash.c', 'src/crypto/bash/bash_prg.c']
     rate = 128
-    ns = (0, 1, rate - 1, rate, rate + 1) if q else (0, 1, 2, rate - 1, rate, rate + 1, 130)
+    ns = (1, rate, rate + 1, 2 * rate) if q else (0, 1, 2, rate - 1, rate, rate + 1, 130, 2 * rate - 1, 2 * rate, 2 * rate + 1)
     pi = []
     for n in ns:
-        for a in sorted(set(x for x in (0, 1, rate - 1, rate, n - 1, n, n // 2) if 0 <= x <= n)):
-            for (m, b_) in ((0, 0), (33, 5), (40, 0)) if q else ((0, 0), (1, 1), (33, 5), (33, 32), (40, 0), (40, 40)):
+        for a in sorted(set(x for x in (0, 1, 100, rate - 1, rate, n - 1, n, n // 2) if 0 <= x <= n)):
+            for (m, b_) in ((33, 5),) if q else ((0, 0), (1, 1), (33, 5), (33, 32), (40, 0), (40, 40)):
                 pi.append(('h_%d_%d_%d_%d' % (n, a, m, b_), '%d, %d, %d, %d, 32' % (n, a, m, b_)))
-    obs.append(Ob(name='c10_bashPrg', harness='harness/C10/bash_prg.c', defs=['LEVEL=256', 'CAP=2', 'MAXN=130'], instances=pi, srcs=BH, stub_files=['stubs/bashf_uf.c'], stubs=['bashf_uf'],
-                  unwind=140, unwind_rules=[(r'^bashPrg\w+\.\d+$', 4)], timeout=600, mem_gb=10, cbmc_extra=X,
+    obs.append(Ob(name='c10_bashPrg', harness='harness/C10/bash_prg.c', defs=['LEVEL=256', 'CAP=2', 'MAXN=258'], instances=pi, srcs=BH, stub_files=['stubs/bashf_uf.c'], stubs=['bashf_uf'],
+                  unwind=270, unwind_rules=[(r'^bashPrg\w+\.\d+$', 5)], timeout=600, mem_gb=10, cbmc_extra=X,
                   funcs=['bashPrgStart', 'bashPrgAbsorbStep', 'bashPrgSqueezeStep', 'bashPrgAbsorb', 'bashPrgSqueeze'],
                   bound='l=256, d=2 (rate 128), keyed: %d (absorb length, split, squeeze length, split) tuples around the rate boundary; not relocated (bash.h does not declare the state copyable)' % len(pi)))
     bh = [('h_%d_%d_%d_%d%d' % (n, a, n - a, g, 0), '%d, %d, %d, %d, 0, 32' % (n, a, n - a, g)) for n in ((0, 1, 127, 128, 129) if q else (0, 1, 64, 127, 128, 129, 130)) for a in sorted(set(x for x in (0, 1, 127, 128, n // 2, n) if x <= n)) for g in (0, 1)]
